@@ -580,7 +580,7 @@ static void MACRO_OutProcessor(void) {
             FirstOutputTag->ParamDefVals      = NULL;
             AddMacro(FirstOutputTag->Mac, FirstOutputTag->PubSect, True);
             if ((FirstOutputTag->DoGlobCopy) && (SectionStack)) {
-                GMacro             = (PMacroRec)malloc(sizeof(MacroRec));
+                GMacro             = (PMacroRec)calloc(1, sizeof(MacroRec));
                 GMacro->Name       = as_strdup(FirstOutputTag->GName);
                 GMacro->ParamCount = FirstOutputTag->Mac->ParamCount;
                 GMacro->FirstLine  = DuplicateStringList(FirstOutputTag->Mac->FirstLine);
@@ -589,7 +589,10 @@ static void MACRO_OutProcessor(void) {
                         = DuplicateStringList(FirstOutputTag->Mac->ParamDefVals);
                 GMacro->UsesNumArgs = FirstOutputTag->Mac->UsesNumArgs;
                 GMacro->UsesAllArgs = FirstOutputTag->Mac->UsesAllArgs;
-                AddMacro(GMacro, FirstOutputTag->GlobSect, False);
+                GMacro->LstMacroExpMod = FirstOutputTag->Mac->LstMacroExpMod;
+                GMacro->LocIntLabel    = FirstOutputTag->Mac->LocIntLabel;
+                GMacro->GlobalSymbols  = FirstOutputTag->Mac->GlobalSymbols;
+                AddMacro(GMacro, FirstOutputTag->GlobSect, True);
             }
         } else {
             ClearMacroRec(&(FirstOutputTag->Mac), TRUE);
